@@ -341,6 +341,13 @@ func (fr *Frame) callStatic(callee *ssa.Function, args []Val, free []Val, cc *ss
 			}
 		}
 	}
+	if len(args) > 0 && args[0].S == "View" && callee.Signature.Recv() != nil {
+		// a concrete store type modelled as a view (prefix.Store): its KVStore methods are the view operations
+		switch callee.Name() {
+		case "Get", "Has", "Set", "Delete":
+			return fr.viewOp(callee.Name(), args[0], args[1:], cc, resT, st, reach)
+		}
+	}
 	if p, ok := staticPrelude[name]; ok {
 		return p.fn(&preCall{fr: fr, st: st, reach: reach, args: args, cc: cc, resT: resT, name: name})
 	}
